@@ -72,6 +72,134 @@ CHECKS = {
         "walk orders are simulated; one interpreter (3.12.1).",
         "DESIGN.md 5/C18",
     ),
+    "C01": (
+        "grammar-based Hypothesis generation of canonical spec trees x valid objects; round trip through the "
+        "generated code, domain delimited by a reference interpreter",
+        "Generated wire-unambiguous spec trees are fed to the real generator; every drawn valid object the "
+        "format can carry (decided by the reference interpreter's own round trip) is serialised with a fresh "
+        "writer and deserialised with a fresh reader; result must equal the original field by field, consume "
+        "exactly the bytes written, and report byte_size (nested too). Sampled: ~2.4k trees / ~19k objects "
+        "quick, ~40k trees thorough.",
+        "Trusted: the reference interpreter only as domain filter (a too-permissive reference could cause a "
+        "false alarm, a too-strict one only lowers yield; C02/C03 compare it with the code directly).",
+        "DESIGN.md 5/C01",
+    ),
+    "C03": (
+        "grammar-based Hypothesis generation of spec trees x mutated/truncated/random byte strings; "
+        "differential against a reference deserializer, guard-band metamorphic, operation-budget termination",
+        "For generated spec trees the generated deserializers are run on valid serialisations, every kind of "
+        "truncation/corruption/junk/random bytes, in plain and chunked entry mode; the returned object, "
+        "byte_size and final position must equal the reference interpreter's; only the documented ValueError "
+        "may escape; results must not depend on bytes outside the reader's slice; a deterministic operation "
+        "budget detects non-progressing loops. Sampled: ~2k trees / ~60k inputs quick, ~25k trees thorough.",
+        "Trusted: vlib/refinterp.py + RefReader as the reading rules; inputs needing > 20,000 reference loop "
+        "iterations are skipped and counted.",
+        "DESIGN.md 5/C03",
+    ),
+    "C04": (
+        "Hypothesis op-list strategy interpreted by a write-then-read-back oracle with an own cp1252 table",
+        "20k (quick) / 400k (thorough) sequences of typed writes are written with a fresh EoWriter and read back "
+        "with the matching get_* calls on a fresh EoReader; expected values are the written values (strings as "
+        "their cp1252 image from the harness' own table), exact consumption required. Sampled.",
+        "Trusted: the harness' cp1252 table; the stated exclusions (y-diaeresis in padded strings, tilde in "
+        "encoded strings) follow the property's domain.",
+        "DESIGN.md 5/C04",
+    ),
+    "C05": (
+        "bounded-exhaustive history enumeration (state-forking tree walk) + Hypothesis op-list histories in "
+        "lockstep with an independent reference reader on sentinel-padded buffers",
+        "Every byte string over {00,01,FE,FF} of length <= 5 x every operation sequence of length <= 3 (quick) / "
+        "<= 4 (thorough) over a 24-operation menu (typed reads, over-reads, mode switches, next_chunk, slices and "
+        "slices of slices, documented ValueErrors), compared after every operation (value/exception type, "
+        "position, remaining, mode of every reader in the pool, bounds) with a cache-free reference reader, under "
+        "two sentinel patterns; plus 5,120 / 100,000 Hypothesis histories of up to 50 ops over 0-64 arbitrary "
+        "bytes. Exhaustive over the stated bound, sampled beyond.",
+        "Trusted: RefReader (pinned by the repository's reader scripts); the tree walk assumes reader state lives "
+        "in the instance __dict__ (cross-checked by from-scratch re-runs).",
+        "DESIGN.md 5/C05",
+    ),
+    "C06": (
+        "Hypothesis-generated chunk lists x two read plans; written-value oracle + non-interference comparison",
+        "20k / 400k cases of 1-6 chunks of typed fields written with sanitisation on and joined by break bytes, "
+        "read under two drawn plans (under-reads, over-reads with surplus reads, next_chunk): planned reads return "
+        "the written values, surplus reads return 0/empty, chunks read under the same per-chunk plan give the same "
+        "results whatever happened to other chunks, no chunk contains 0xFF. Sampled.",
+        "Trusted: the harness' cp1252/sanitisation expectations; tilde positions in encoded strings are masked.",
+        "DESIGN.md 5/C06",
+    ),
+    "C08": (
+        "bounded-exhaustive enumeration + Hypothesis byte strings against model-free laws and an independent table model",
+        "Full 256-value sweep at every position of lengths 1..8, every string of length <= 5 (quick) / <= 7 "
+        "(thorough) over a 10-symbol boundary alphabet, and Hypothesis strings up to 2048 bytes: length preserved, "
+        "two-way round trip except at 0x7E, bytes outside 22..7E only move to the mirrored index, inside land in "
+        "21..7D, 00/FF multiset preserved; plus equality with an independent per-byte table. Exhaustive over the "
+        "stated sets, sampled for long strings.",
+        "Trusted: the table in vlib/refcodec.py (restates the property; pinned by the repository's 6 vectors).",
+        "DESIGN.md 5/C08",
+    ),
+    "C09": (
+        "Hypothesis op-list writer histories interpreted step by step against a reference writer twin",
+        "16k / 200k histories of 1-40 steps over every add_* method and the mode setter (integers in range, at the "
+        "limit, far beyond; strings with length arguments below/at/above len, padded both ways): a write the "
+        "reference rejects must raise ValueError and leave contents and length unchanged; an accepted write must "
+        "append exactly the reference's bytes; the mode reads back as set. Sampled.",
+        "Trusted: RefWriter (vlib/refio.py), written from the property statement.",
+        "DESIGN.md 5/C09",
+    ),
+    "C10": (
+        "tag-plane observation of permutations, bounded-exhaustive enumeration and Hypothesis run layouts/pipelines "
+        "against inverse/involution laws and own weave / run-reversal models",
+        "interleave/deinterleave permutations observed for every length 0..2048 (quick) / 0..20000 (thorough); "
+        "flip_msb on all 256 values; swap_multiples on all divisibility patterns of length <= 12 for nine multiples; "
+        "Hypothesis data from drawn run layouts, multiples 0..300 / large / negative, and operation pipelines undone "
+        "by inverse pipelines. Exhaustive over the stated bounds, sampled beyond.",
+        "Trusted: the weave and run-reversal models in the check (from the docstrings; pinned by the repository's "
+        "vectors); negative multiple 'rejected' is read as ValueError.",
+        "DESIGN.md 5/C10",
+    ),
+    "C14": (
+        "Hypothesis construction sequences + bounded-exhaustive integer sweeps against an int-semantics model; "
+        "hand-written enums with the real metaclass",
+        "Drawn IntEnum declarations (1-8 members, boundary/negative/huge ordinals) using the real ProtocolEnumMeta x "
+        "sequences of 1-24 constructions mixing declared and undeclared values (bools, beyond 2^64), every clause "
+        "(identity for declared, isinstance/eq/hash/name/value/int/dict-key for undeclared, member set unchanged) "
+        "checked after every step; every integer 0..64008 for 8 fixed and several drawn enums. Part (a) only: "
+        "generated enums are exercised by C01-C03 (unknown ordinals preserved through read/write).",
+        "Trusted: Python int semantics as the model; zero-member enums are excluded (open known finding KF3).",
+        "DESIGN.md 5/C14",
+    ),
+    "C16": (
+        "grammar-based Hypothesis generation of spec trees x valid objects x one declaration-violating edit; "
+        "refusal oracle gated by a reference serializer",
+        "For generated spec trees, valid objects are changed by one violating edit at a drawn member at any depth "
+        "(required None, wrong fixed length, padded too long, beyond length-field limit, integer/ordinal/element at "
+        "or above the limit, wrong-kind case data); where the reference serializer reaches the edit, the generated "
+        "serialize must raise SerializationError or ValueError and never return. Sampled: ~2.4k trees / ~13k "
+        "refusals quick, ~40k trees thorough.",
+        "Trusted: the reference interpreter to decide which edits are reached; constructor-refused objects are skipped.",
+        "DESIGN.md 5/C16",
+    ),
+    "C17": (
+        "grammar-based Hypothesis generation of valid spec trees x a 17-entry catalogue of single rule-violating "
+        "edits at drawn placements; accept/reject oracle",
+        "Each case verifies that the real generator accepts the valid tree and rejects the edited tree (any "
+        "exception). The catalogue covers the rules named in the property at top level, inside <chunked>, inside "
+        "switch cases, case-in-chunk and in every file. Sampled: ~4.8k pairs quick, ~64k thorough.",
+        "Trusted: each catalogue edit really violates the named rule (reviewed; only rules named in the statement).",
+        "DESIGN.md 5/C17",
+    ),
+    "C19": (
+        "grammar-based Hypothesis generation of spec trees x instances x mutation attempts; AttributeError / "
+        "tuple / aliasing / repeat-serialize oracles",
+        "For generated spec trees, constructed (lists and one-shot generators as array arguments) and deserialised "
+        "instances are attacked through every public property (setattr/delattr on members, <switch>_data, "
+        "byte_size, recursively into nested instances) and by mutating the caller's lists; every attempt must raise "
+        "AttributeError, arrays must be tuples unaffected by the caller, serialize before/after must agree. "
+        "Sampled: ~2k trees / ~10k instances / ~400k setattr attempts quick.",
+        "Trusted: nothing beyond the generator of inputs; private attributes and caller-owned bytearrays for blobs "
+        "are deliberately not asserted.",
+        "DESIGN.md 5/C19",
+    ),
 }
 
 NOT_APPLICABLE = {}
